@@ -1,6 +1,6 @@
 SPECIFICATION GSpec
 CONSTANTS
-  Families = {"A", "B", "C1", "E", "K", "R"}
+  Families = {"A", "B", "C1", "E", "K", "R", "G"}
   Depth = 4
 VIEW View
 CONSTRAINT Bound
